@@ -17,7 +17,7 @@ def gen(rng, cls, **kw):
 def run(tier, seed):
     # the generator chooses the pair itself; `classes` only sets the number of draws
     return opscheck.run_property(
-        "C08", tier, seed, clauses_for=lambda cfg: CLAUSES, n_quick=3, n_thorough=30,
+        "C08", tier, seed, clauses_for=lambda cfg: CLAUSES, n_quick=5, n_thorough=40,
         gen_kw=[{}], generator=gen, observe=symdrive.observe, classes=symdrive.PAIR_KINDS,
         rule="pairs (small grid, image under E): 9 extrusions (Grid1D-2D-3D at every position, CylindricalGrid1D to "
              "CylindricalGrid2D / PolarGrid2D, CylindricalGrid2D / PolarGrid2D to CylindricalGrid3D; new axis with 1-2 "
